@@ -269,6 +269,9 @@ def check(ctx, rep):
     rep.rule("R19e", "a failed bind aborts start-up and there is no later bind: server_bind() of the server classes lets errors propagate, "
              "nothing else binds the listening socket", floor=1)
     bind_obligations(ctx, rep, "R19e")
+    rep.rule("R19k", "nothing that runs before the privilege dropper stores the configured document root in process-wide state: the root "
+             "rewritten to '/' inside the jail must be the one the handlers use (call graph of the start-up steps before the dropper)", floor=1)
+    root_memo_obligations(ctx, rep, "R19k")
     rep.rule("R19d", "= R01n: the document root is rewritten to '/' only on paths on which chroot has succeeded (chroot made to fail at every "
              "call site, surviving paths followed)", floor=1)
     confined_root_obligations(ctx, rep, "R19d")
@@ -526,3 +529,80 @@ def check(ctx, rep):
             rep.add("R19c", f"{f.qualname}: {norm(call)[:70]}", not problems, ctx.where(f, call),
                     "failure would be swallowed: " + "; ".join(problems) if problems else "errors propagate",
                     key=f"R19c|{f.qualname}|{norm(call.func)}")
+
+
+def root_memo_obligations(ctx, rep, rule="R19k"):
+    """Nothing that runs in initialize() before the privilege dropper stores the configured document root in process-wide
+    state (a module global that later requests read instead of the configuration): the dropper rewrites the *configuration*
+    to '/' after chroot, and a root remembered earlier keeps pointing at the pre-chroot path, so the jailed server resolves
+    selectors against a directory that does not exist inside the jail (or, worse, exists with other content)."""
+    prog = ctx.prog
+    eff = Effects(prog, ctx.resolver)
+    initialize = ctx.func("initialization.initialize")
+    droppers = _droppers(ctx, eff)
+    if initialize is None or not droppers:
+        rep.fail(rule, "initialization.initialize", detail="start-up function or privilege dropper not found")
+        return
+    writers = {}
+    for f in prog.all_functions():
+        if not f.module.name.startswith("pygopherd"):
+            continue
+        g = {n_ for s in ast.walk(f.node) if isinstance(s, ast.Global) for n_ in s.names}
+        if not g:
+            continue
+        for s in ast.walk(f.node):
+            if isinstance(s, (ast.Assign, ast.AnnAssign, ast.AugAssign)) and s.value is not None:
+                tg = s.targets if isinstance(s, ast.Assign) else [s.target]
+                if any(isinstance(t, ast.Name) and t.id in g for t in tg) and any(
+                        isinstance(c, ast.Constant) and c.value == "root" for c in ast.walk(s.value)):
+                    writers[f] = s
+    rep.analysed(initialize.qualname, *[w.qualname for w in writers])
+    if not writers:
+        rep.ok(rule, "no function keeps the configured root in process-wide state", "pygopherd/", "", key=f"{rule}|none", nontrivial=False)
+        return
+    wnames = {w.name for w in writers}
+    before = []
+    for st in initialize.node.body:
+        calls = [c for c in ast.walk(st) if isinstance(c, ast.Call)]
+        hit = False
+        for c in calls:
+            t = ctx.resolver.resolve(c, initialize, None)
+            if t is not None and t.kind == "repo" and set(t.funcs) & set(droppers):
+                hit = True
+        if hit:
+            break
+        before.append(st)
+    else:
+        rep.fail(rule, "initialization.initialize", detail="initialize() never calls the privilege dropper")
+        return
+    problems = []
+    seen = set()
+    work = []
+    for st in before:
+        for c in ast.walk(st):
+            if isinstance(c, ast.Call):
+                t = ctx.resolver.resolve(c, initialize, None)
+                if t is not None and t.kind == "repo":
+                    work.extend((x, [norm(c)[:40]]) for x in t.funcs if x is not None)
+    n_funcs = 0
+    while work:
+        fn, trail = work.pop()
+        if fn in seen or not fn.module.name.startswith("pygopherd"):
+            continue
+        seen.add(fn)
+        n_funcs += 1
+        if fn in writers:
+            problems.append(f"{' -> '.join(trail)} -> {fn.qualname} stores the configured root in a module global (`{norm(writers[fn])[:50]}`) before the "
+                            "privilege dropper has run: after chroot the configuration says '/', the remembered root still names the old path")
+            continue
+        if len(trail) > 6:
+            continue
+        for c2, t2 in eff.calls_of(fn, fn.cls):
+            if t2.kind == "repo":
+                work.extend((x, trail + [fn.name]) for x in t2.funcs if x is not None)
+        for c2 in ast.walk(fn.node):
+            if isinstance(c2, ast.Call) and isinstance(c2.func, ast.Attribute) and c2.func.attr in wnames:
+                work.extend((w, trail + [fn.name]) for w in writers if w.name == c2.func.attr)
+    rep.add(rule, f"initialize(): {len(before)} start-up steps before the privilege dropper reach no root memo [{n_funcs} functions followed, "
+            f"memo writers: {', '.join(sorted(w.qualname for w in writers))}]", not problems, ctx.where(initialize), "; ".join(sorted(set(problems))),
+            key=f"{rule}|initialize")
